@@ -1,5 +1,5 @@
 From Coq Require Import Extraction ExtrOcamlBasic.
-From IV Require Import Base.Bytes Model.FileDisk Model.FileDiskCodec.
+From IV Require Import Base.Bytes Model.FileDisk Model.FileDiskCodec Model.FileDiskVisit.
 Extraction Language OCaml.
 Extraction "c11_model.ml" conv_anchor steps result_of exec view visit crash_disk run run' lookup
-  children enc_index dec_index evict_count read_index.
+  children enc_index dec_index evict_count read_index cvisit.
